@@ -53,3 +53,7 @@ Definition attempt_deadline (now : timeval) (base num_servers try_count maxtimeo
   do w <- calc_query_timeout base num_servers try_count maxtimeout r fp;
   do d <- timeadd now w;
   Ok (w, d).
+
+(* C06 wait oracle: what the property says about one attempt's wait w (ms) *)
+Definition wait_okb (base maxtimeout w : Z) : bool :=
+  (base <=? w) && ((maxtimeout =? 0) || (w <=? maxtimeout)).
